@@ -90,48 +90,43 @@ void Interpreter::pop_scope() {
 
     // v0.10.0: デストラクタをLIFO順で呼び出す（最後に作成された変数から破棄）
     if (!destructor_stacks_.empty()) {
-        if (!is_calling_destructor_) {
-            // 通常のスコープ終了時：デストラクタを呼び出す
-            // まず、このスコープのデストラクタリストのコピーを取得
-            std::vector<std::pair<std::string, std::string>> destroy_list =
-                destructor_stacks_.back();
+        // 通常のスコープ終了時：デストラクタを呼び出す
+        // まず、このスコープのデストラクタリストのコピーを取得
+        std::vector<std::pair<std::string, std::string>> destroy_list =
+            destructor_stacks_.back();
 
-            // スタックから削除（デストラクタ呼び出し前に削除して、
-            // デストラクタ内でのpush/pop_scopeの影響を受けないようにする）
-            destructor_stacks_.pop_back();
+        // スタックから削除（デストラクタ呼び出し前に削除して、
+        // デストラクタ内でのpush/pop_scopeの影響を受けないようにする）
+        destructor_stacks_.pop_back();
 
-            if (debug_mode && !destroy_list.empty()) {
+        if (debug_mode && !destroy_list.empty()) {
+            {
+                char dbg_buf[512];
+                snprintf(dbg_buf, sizeof(dbg_buf),
+                         "[SCOPE] pop_scope: calling %zu destructors",
+                         destroy_list.size());
+                debug_msg(DebugMsgId::GENERIC_DEBUG, dbg_buf);
+            }
+        }
+
+        for (auto it = destroy_list.rbegin(); it != destroy_list.rend();
+             ++it) {
+            const std::string &var_name = it->first;
+            const std::string &struct_type_name = it->second;
+
+            if (debug_mode) {
                 {
                     char dbg_buf[512];
-                    snprintf(dbg_buf, sizeof(dbg_buf),
-                             "[SCOPE] pop_scope: calling %zu destructors",
-                             destroy_list.size());
+                    snprintf(
+                        dbg_buf, sizeof(dbg_buf),
+                        "[DESTRUCTOR] Destroying variable %s of type %s",
+                        var_name.c_str(), struct_type_name.c_str());
                     debug_msg(DebugMsgId::GENERIC_DEBUG, dbg_buf);
                 }
             }
 
-            for (auto it = destroy_list.rbegin(); it != destroy_list.rend();
-                 ++it) {
-                const std::string &var_name = it->first;
-                const std::string &struct_type_name = it->second;
-
-                if (debug_mode) {
-                    {
-                        char dbg_buf[512];
-                        snprintf(
-                            dbg_buf, sizeof(dbg_buf),
-                            "[DESTRUCTOR] Destroying variable %s of type %s",
-                            var_name.c_str(), struct_type_name.c_str());
-                        debug_msg(DebugMsgId::GENERIC_DEBUG, dbg_buf);
-                    }
-                }
-
-                // デストラクタを呼び出す
-                call_destructor(var_name, struct_type_name);
-            }
-        } else {
-            // デストラクタ呼び出し中：スタックだけpop（デストラクタは呼ばない）
-            destructor_stacks_.pop_back();
+            // デストラクタを呼び出す
+            call_destructor(var_name, struct_type_name);
         }
 
         if (debug_mode) {
@@ -243,45 +238,40 @@ void Interpreter::pop_destructor_scope() {
 
     // デストラクタをLIFO順で呼び出す（最後に作成された変数から破棄）
     if (!destructor_stacks_.empty()) {
-        if (!is_calling_destructor_) {
-            // 通常のスコープ終了時：デストラクタを呼び出す
-            std::vector<std::pair<std::string, std::string>> destroy_list =
-                destructor_stacks_.back();
+        // 通常のスコープ終了時：デストラクタを呼び出す
+        std::vector<std::pair<std::string, std::string>> destroy_list =
+            destructor_stacks_.back();
 
-            destructor_stacks_.pop_back();
+        destructor_stacks_.pop_back();
 
-            if (debug_mode && !destroy_list.empty()) {
+        if (debug_mode && !destroy_list.empty()) {
+            {
+                char dbg_buf[512];
+                snprintf(dbg_buf, sizeof(dbg_buf),
+                         "[DESTRUCTOR] pop_destructor_scope: calling %zu "
+                         "destructors",
+                         destroy_list.size());
+                debug_msg(DebugMsgId::GENERIC_DEBUG, dbg_buf);
+            }
+        }
+
+        for (auto it = destroy_list.rbegin(); it != destroy_list.rend();
+             ++it) {
+            const std::string &var_name = it->first;
+            const std::string &struct_type_name = it->second;
+
+            if (debug_mode) {
                 {
                     char dbg_buf[512];
-                    snprintf(dbg_buf, sizeof(dbg_buf),
-                             "[DESTRUCTOR] pop_destructor_scope: calling %zu "
-                             "destructors",
-                             destroy_list.size());
+                    snprintf(
+                        dbg_buf, sizeof(dbg_buf),
+                        "[DESTRUCTOR] Destroying variable %s of type %s",
+                        var_name.c_str(), struct_type_name.c_str());
                     debug_msg(DebugMsgId::GENERIC_DEBUG, dbg_buf);
                 }
             }
 
-            for (auto it = destroy_list.rbegin(); it != destroy_list.rend();
-                 ++it) {
-                const std::string &var_name = it->first;
-                const std::string &struct_type_name = it->second;
-
-                if (debug_mode) {
-                    {
-                        char dbg_buf[512];
-                        snprintf(
-                            dbg_buf, sizeof(dbg_buf),
-                            "[DESTRUCTOR] Destroying variable %s of type %s",
-                            var_name.c_str(), struct_type_name.c_str());
-                        debug_msg(DebugMsgId::GENERIC_DEBUG, dbg_buf);
-                    }
-                }
-
-                call_destructor(var_name, struct_type_name);
-            }
-        } else {
-            // デストラクタ呼び出し中：スタックだけpop（デストラクタは呼ばない）
-            destructor_stacks_.pop_back();
+            call_destructor(var_name, struct_type_name);
         }
 
         if (debug_mode) {
